@@ -29,6 +29,8 @@ enum Obs {
     Reopen(bool),
     Search(Option<Vec<(u64, Option<i64>)>>),
     Panic,
+    /// the process died (allocation failure abort) while executing this call
+    Abort,
 }
 
 #[derive(Clone, Debug)]
@@ -56,10 +58,11 @@ fn dist_obs(d: f32) -> Option<i64> {
 
 /// Runs one history on the real index; returns one observation per op (level mismatches are fatal:
 /// the level is an input of the model).
-fn run_history(h: &Hist) -> Vec<Obs> {
+fn run_history_with(h: &Hist, sink: &mut dyn FnMut(&Obs)) {
+    if std::env::var("C25_TRACE").is_ok() { eprintln!("TRACE {}", hist_line(h)); }
     let path = tmp_path();
     let _ = std::fs::remove_file(&path);
-    let mut out = Vec::with_capacity(h.ops.len());
+    let mut out = Sink(sink);
     let created = catch(AssertUnwindSafe(|| {
         PersistentHnswIndex::create(&path, 1, 1, h.dims as u16, h.m, h.efc, 32, DistanceFunction::L2, QuantizationType::None)
     }));
@@ -133,7 +136,105 @@ fn run_history(h: &Hist) -> Vec<Obs> {
     }
     drop(idx);
     let _ = std::fs::remove_file(&path);
-    out
+}
+
+struct Sink<'a>(&'a mut dyn FnMut(&Obs));
+impl<'a> Sink<'a> { fn push(&mut self, o: Obs) { (self.0)(&o) } }
+
+
+// ------------------------------------------------------------------ isolation of risky histories
+/// Bytes a node of this level takes in its page (HnswNode::max_serialized_size).
+fn node_bytes(lvl: u8) -> usize { 8 + 1 + 1 + 32 * 6 + (lvl as usize) * (1 + 16 * 6) }
+
+/// Page bytes the history uses: 64-byte page header + per allocated node a 4-byte slot entry and its
+/// slot. Beyond 8192 bytes the 13-bit slot offsets of the implementation alias (finding F-C25-3):
+/// a slot that really starts at offset o >= 8192 is addressed at o - 8192, which then lies inside the
+/// slot directory / page header or inside later nodes; neighbour ids become garbage and a search may
+/// abort the whole process on a multi-gigabyte VisitedSet allocation.
+fn alloc_bytes(h: &Hist) -> usize {
+    64 + h.ops.iter().map(|o| match o { Op::Ins { v, lvl, .. } if v.len() == h.dims => node_bytes(*lvl) + 4, _ => 0 }).sum::<usize>()
+}
+
+fn obs_wire(o: &Obs) -> String {
+    match o {
+        Obs::Ins(b) => format!("I{}", *b as u8),
+        Obs::Del(b) => format!("D{}", *b as u8),
+        Obs::Vac(n) => format!("V{}", n),
+        Obs::Reopen(b) => format!("R{}", *b as u8),
+        Obs::Search(None) => "SE".to_string(),
+        Obs::Search(Some(rs)) => format!("S{}", rs.iter().map(|(r, d)| match d { Some(d) => format!("{}:{}", r, d), None => format!("{}:inf", r) }).collect::<Vec<_>>().join(",")),
+        Obs::Panic => "P".to_string(),
+        Obs::Abort => "A".to_string(),
+    }
+}
+fn obs_unwire(l: &str) -> Option<Obs> {
+    let (c, r) = l.split_at(1);
+    Some(match c {
+        "I" => Obs::Ins(r == "1"),
+        "D" => Obs::Del(r == "1"),
+        "V" => Obs::Vac(r.parse().ok()?),
+        "R" => Obs::Reopen(r == "1"),
+        "P" => Obs::Panic,
+        "A" => Obs::Abort,
+        "S" => {
+            if r == "E" { Obs::Search(None) } else if r.is_empty() { Obs::Search(Some(vec![])) } else {
+                let mut v = vec![];
+                for it in r.split(',') {
+                    let mut p = it.split(':');
+                    let row: u64 = p.next()?.parse().ok()?;
+                    let d = p.next()?;
+                    v.push((row, if d == "inf" { None } else { Some(d.parse().ok()?) }));
+                }
+                Obs::Search(Some(v))
+            }
+        }
+        _ => return None,
+    })
+}
+
+/// `c25 child <file>`: run the one history of <file>, printing one observation per line as it goes.
+fn child_main(file: &str) {
+    use std::io::Write;
+    let txt = std::fs::read_to_string(file).unwrap_or_default();
+    let Some(h) = parse_hist(txt.trim()) else { std::process::exit(4) };
+    let out = std::io::stdout();
+    run_history_with(&h, &mut |o: &Obs| { let mut l = out.lock(); let _ = writeln!(l, "{}", obs_wire(o)); let _ = l.flush(); });
+}
+
+/// Runs a history; one that leaves the regime in which node storage cannot overlap is run in a child
+/// process with an address-space limit, so that an allocation-failure abort is observed, not suffered.
+/// Returns the (possibly truncated) history together with its observations.
+fn run_history(h: &Hist) -> (Hist, Vec<Obs>) {
+    if alloc_bytes(h) <= 8192 {
+        let mut obs = vec![];
+        run_history_with(h, &mut |o: &Obs| obs.push(o.clone()));
+        return (h.clone(), obs);
+    }
+    let n = FILE_NO.fetch_add(1, Ordering::SeqCst);
+    let f = std::env::temp_dir().join(format!("tvh-c25-{}-{}.line", std::process::id(), n));
+    std::fs::write(&f, hist_line(h)).expect("line file");
+    let exe = std::env::current_exe().expect("exe");
+    let tdir = std::env::temp_dir().join(format!("tvh-c25-{}-{}.d", std::process::id(), n));
+    let _ = std::fs::create_dir_all(&tdir);
+    let cmd = format!("ulimit -v 6000000; exec '{}' child '{}'", exe.display(), f.display());
+    let outp = std::process::Command::new("sh").arg("-c").arg(&cmd).env("TMPDIR", &tdir)
+        .stderr(std::process::Stdio::null()).output();
+    let _ = std::fs::remove_file(&f);
+    let _ = std::fs::remove_dir_all(&tdir);
+    let mut obs: Vec<Obs> = vec![];
+    let mut ok = false;
+    if let Ok(o) = outp {
+        ok = o.status.success();
+        for l in String::from_utf8_lossy(&o.stdout).lines() { if let Some(b) = obs_unwire(l.trim()) { obs.push(b); } }
+    }
+    if !ok || obs.len() < h.ops.len() {
+        let mut hh = h.clone();
+        obs.truncate(hh.ops.len().saturating_sub(1).min(obs.len()));
+        hh.ops.truncate(obs.len() + 1);
+        obs.push(Obs::Abort);
+        return (hh, obs);
+    }
+    (h.clone(), obs)
 }
 
 // ------------------------------------------------------------------ printing
@@ -168,6 +269,7 @@ fn op_term(op: &Op, ob: &Obs) -> String {
             format!("OSearch (SOk {})", clist(&items))
         }
         Obs::Panic => "OPanic".to_string(),
+        Obs::Abort => "OAbort".to_string(),
     };
     format!("({},{})", o, b)
 }
@@ -244,6 +346,7 @@ fn oracle(h: &Hist, obs: &[Obs]) -> Verdict {
     let mut pending_reopen: Option<(Vec<i32>, usize, usize, Vec<(u64, Option<i64>)>)> = None;
     for (op, ob) in h.ops.iter().zip(obs.iter()) {
         if let Obs::Panic = ob { fail(&mut v, "panic"); }
+        if let Obs::Abort = ob { fail(&mut v, "process abort"); }
         match (op, ob) {
             (Op::Ins { row, v: vec, .. }, Obs::Ins(ok)) => {
                 if live.contains_key(row) { return v; } // caller protocol broken: nothing is claimed afterwards
@@ -448,19 +551,33 @@ fn gen_sq(rng: &mut Rng, n: usize) -> Vec<(SqCase, &'static str)> {
 
 // ------------------------------------------------------------------ modes
 fn main() {
+    let argv: Vec<String> = std::env::args().collect();
+    if argv.len() >= 3 && argv[1] == "child" { quiet_panics(); child_main(&argv[2]); return; }
     let a = Args::parse();
     match a.mode.as_str() {
         "gen" => gen(&a),
         "search" => search(&a),
+        "why" => { // diagnostic: why does the Rust-side oracle flag these lines
+            for l in a.replay_lines().unwrap_or_default() {
+                if let Some(h) = parse_hist(&l) {
+                    let (hh, obs) = run_history(&h);
+                    let v = oracle(&hh, &obs);
+                    println!("alloc_bytes={} ops={} ran={} ok={} why={} last={}", alloc_bytes(&h), h.ops.len(), hh.ops.len(), v.ok, v.why,
+                             obs.last().map(obs_wire).unwrap_or_default());
+                }
+            }
+        }
         _ => { eprintln!("c25: unknown mode"); std::process::exit(2); }
     }
 }
 
 fn push_hist(w: &mut CaseWriter, h: &Hist, kind: &str) {
-    let obs = run_history(h);
-    let v = oracle(h, &obs);
+    let (hh, obs) = run_history(h);
+    let v = oracle(&hh, &obs);
     let nontrivial = v.ok_inserts >= 3 && v.multi_result_searches >= 1;
-    w.push(hist_term(h, &obs), hist_line(h), nontrivial, kind);
+    w.push(hist_term(&hh, &obs), hist_line(h), nontrivial, kind);
+    if alloc_bytes(h) > 8192 { w.count("histories_past_half_page", 1); }
+    if matches!(obs.last(), Some(Obs::Abort)) { w.count("process_aborts_observed", 1); }
     if v.eff_deletes > 0 { w.count("histories_with_effective_delete", 1); }
     if !v.ok { w.count("oracle_flagged_in_rust", 1); }
 }
@@ -506,15 +623,15 @@ fn search(a: &Args) {
     let mut tried: u64 = 0;
     let budget = (a.budget / 100).max(200);
     for h in fixed_hists() {
-        let obs = run_history(&h);
-        if !oracle(&h, &obs).ok && fails.len() < 30 { fails.push(hist_line(&h)); }
+        let (hh, obs) = run_history(&h);
+        if !oracle(&hh, &obs).ok && fails.len() < 30 { fails.push(hist_line(&h)); }
         tried += 1;
     }
     while tried < budget {
         let kind = match tried % 10 { 0..=5 => Kind::InsertOnly, 6 | 7 => Kind::WithDelete, 8 => Kind::Blind, _ => Kind::Tiny };
         let h = gen_hist(&mut rng, kind, if tried % 7 == 0 { 200 } else { 40 });
-        let obs = run_history(&h);
-        if !oracle(&h, &obs).ok && fails.len() < 30 { fails.push(hist_line(&h)); }
+        let (hh, obs) = run_history(&h);
+        if !oracle(&hh, &obs).ok && fails.len() < 30 { fails.push(hist_line(&h)); }
         tried += 1;
     }
     // SQ8: decode within one quantization step (exact rational arithmetic on the f32 values)
